@@ -940,11 +940,13 @@ class _Frame:
         idx = self.eval(n.slice, st)
         key = T("sub", (base, idx))
         if key in st.heap:
+            self._old_value_loads(st.heap[key], key, base, idx, st, n)
             return st.heap[key]
         pth = None
         if st.heap:
             pth = T("sub", (self.path_of(n.value, st), idx))
             if pth in st.heap:
+                self._old_value_loads(st.heap[pth], pth, base, idx, st, n)
                 return st.heap[pth]
         if base.op in ("tuple", "list") and idx.op == "const" and isinstance(idx.a[0], int):
             items = base.a[0]
@@ -964,6 +966,18 @@ class _Frame:
         self.rec.pops.append(POp("sub", base, idx, st.pc, self.loops, self.trys, self.seq(), self.qualname, n.lineno,
                                  n.col_offset, self.path_of(n.value, st)))
         return key
+
+    def _old_value_loads(self, v: T, key: T, base: T, idx: T, st: State, n) -> None:
+        """A stored item read back: on the branches where nothing was stored the load is the original partial
+        operation - record it under those branch conditions."""
+        def go(x, pc):
+            if x == key:
+                self.rec.pops.append(POp("sub", base, idx, pc, self.loops, self.trys, self.seq(), self.qualname,
+                                         n.lineno, n.col_offset, key.a[0]))
+            elif x.op == "ite":
+                go(x.a[1], pc + ((x.a[0], True),))
+                go(x.a[2], pc + ((x.a[0], False),))
+        go(v, st.pc)
 
     def e_Tuple(self, n, st):
         return T("tuple", (tuple(self.eval_elts(n.elts, st)),))
